@@ -339,7 +339,12 @@ def run_programs(gw, rng, big=70000, light=False):
         except OSError:
             return "OSError"
 
-    progs = [("name", name), ("echo", echo), ("produce", produce), ("raises", raises), ("sub", sub), ("callback", callback), ("local_callback", local_callback),
+    def rinfo():
+        # the remote half of Gateway._rinfo is source shipped by the initiator like any remote_exec
+        r = gw._rinfo(update=True)
+        return [sorted(r.__dict__), sorted((k, type(v).__name__) for k, v in r.__dict__.items())]
+
+    progs = [("rinfo", rinfo), ("name", name), ("echo", echo), ("produce", produce), ("raises", raises), ("sub", sub), ("callback", callback), ("local_callback", local_callback),
              ("prints", prints), ("close_inside", close_inside), ("kwargs", kwargs), ("kwargs_nonfunc", kwargs_nonfunc), ("module", module), ("send_after_close", send_after_close), ("status", status)]
     for n, f in progs:
         rec(n, f)
